@@ -49,11 +49,24 @@ impl AsMut<G{i}> for F{i} {{ fn as_mut(&mut self) -> &mut G{i} {{ &mut self.g }}
     return "".join(out)
 
 
+DST_TYPES = r'''
+// an UNSIZED field type (a transparent wrapper of [u8]) whose own AsRef<Self>/AsMut<Self> drop the first byte, and whose
+// AsRef<[u8]> is the whole slice: the field itself and a forwarded call are told apart by address and length
+#[repr(transparent)] pub struct Dst(pub [u8]);
+pub type DstAlias = Dst;
+impl Dst { pub fn new(b: &[u8]) -> &Dst { unsafe { &*(b as *const [u8] as *const Dst) } }
+           pub fn new_mut(b: &mut [u8]) -> &mut Dst { unsafe { &mut *(b as *mut [u8] as *mut Dst) } } }
+impl AsRef<Dst> for Dst { fn as_ref(&self) -> &Dst { Dst::new(&self.0[1..]) } }
+impl AsMut<Dst> for Dst { fn as_mut(&mut self) -> &mut Dst { Dst::new_mut(&mut self.0[1..]) } }
+impl AsRef<[u8]> for Dst { fn as_ref(&self) -> &[u8] { &self.0 } }
+impl AsMut<[u8]> for Dst { fn as_mut(&mut self) -> &mut [u8] { &mut self.0 } }
+'''
+
 PRELUDE = r'''
 use core::ops::{Deref, DerefMut};
 pub fn ad<T: ?Sized>(t: &T) -> usize { t as *const T as *const u8 as usize }
 pub fn report(k: &str, rows: &[String]) { println!("OBS {{\"k\": {:?}, \"rows\": [{}]}}", k, rows.iter().map(|r| format!("{:?}", r)).collect::<Vec<_>>().join(", ")); }
-''' + asref_types() + "\npub mod tm { pub use super::{F1, F2, F3}; }\n"
+''' + DST_TYPES + asref_types() + "\npub mod tm { pub use super::{F1, F2, F3}; }\n"
 
 NAMES = ["a", "b", "c"]
 
@@ -228,6 +241,45 @@ def asref_modules(c, named, variant):
     return out, rej
 
 
+def dst_modules(c, named, alias):
+    """one-field structs whose field is the unsized `Dst`: the struct is unsized too, `&S` is made from a slice"""
+    fs, sattr, doc = c["fs"], c["sattr"], c["asref"]
+    if len(fs) != 1 or doc[0] == "error" or fs[0] == "ign":
+        return []
+    k = key_of(c, "as_ref:dst" + ("_alias" if alias else ""), named)
+    me = "DstAlias" if alias else "Dst"
+    tl = f"[u8], {me}"
+    a = {"none": "", "sel": "#[as_ref] #[as_mut] ", "fwd": "#[as_ref(forward)] #[as_mut(forward)] ",
+         "tys": f"#[as_ref({tl})] #[as_mut({tl})] "}[fs[0]]
+    st = {"none": "", "fwd": "#[as_ref(forward)]\n#[as_mut(forward)]\n", "tys": f"#[as_ref({tl})]\n#[as_mut({tl})]\n"}[sattr]
+    if alias and fs[0] != "tys" and sattr != "tys":
+        return []
+    body = f"{{ {a}pub a: Dst }}" if named else f"({a}pub Dst);"
+    f = "a" if named else "0"
+    decl = (f"#[derive(derive_more::AsRef, derive_more::AsMut)]\n{st}#[repr(transparent)]\npub struct S{body}\n"
+            "fn mk(b: &mut [u8]) -> &mut S { unsafe { &mut *(b as *mut [u8] as *mut S) } }")
+    mode = doc[2] if doc[2] != "per-field" else fs[0]
+    rows, exp = [], []
+    if mode in ("sel", "none", "tys"):
+        rows.append(f'{{ let r: &Dst = AsRef::<Dst>::as_ref(&*s); rows.push(format!("as_ref {{}} {{}}", ad(r) == ad(&s.{f}), r.0.len())); }}')
+        exp.append("as_ref true 4")
+        rows.append(f'{{ let mut b2 = [1u8, 2, 3, 4]; {{ let m = mk(&mut b2); let r: &mut Dst = AsMut::<Dst>::as_mut(m); r.0[0] = 99; }} rows.push(format!("as_mut {{:?}}", b2)); }}')
+        exp.append("as_mut [99, 2, 3, 4]")
+    if mode == "tys":
+        rows.append(f'{{ let r: &[u8] = AsRef::<[u8]>::as_ref(&*s); rows.push(format!("as_ref_slice {{}} {{}}", ad(r) == ad(&s.{f}), r.len())); }}')
+        exp.append("as_ref_slice true 4")
+    if mode == "fwd":
+        rows.append(f'{{ let r: &Dst = AsRef::<Dst>::as_ref(&*s); let w: &[u8] = AsRef::<[u8]>::as_ref(&*s); rows.push(format!("as_ref_fwd {{}} {{}}", r.0.len(), w.len())); }}')
+        exp.append("as_ref_fwd 3 4")
+        rows.append(f'{{ let mut b2 = [1u8, 2, 3, 4]; {{ let m = mk(&mut b2); let r: &mut Dst = AsMut::<Dst>::as_mut(m); r.0[0] = 99; }} rows.push(format!("as_mut_fwd {{:?}}", b2)); }}')
+        exp.append("as_mut_fwd [1, 99, 3, 4]")
+    if not rows:
+        return []
+    mod = (f"use super::*;\n{decl}\npub fn run() {{ let mut b = [1u8, 2, 3, 4]; let s: &S = mk(&mut b); let mut rows: Vec<String> = vec![];\n    "
+           + "\n    ".join(rows) + f"\n    report({json.dumps(k)}, &rows); }}")
+    return [(k, mod, exp)]
+
+
 def run(chk, tier, seed, replay):
     chk.assumptions += ["legacy derives: all fields are Vec<u8> (a wrongly selected neighbour still compiles); AsRef/AsMut: instrumented "
                         "F1..F3 whose own AsRef<Self> returns another object, each with a target G_i",
@@ -260,6 +312,10 @@ def run(chk, tier, seed, replay):
                     mods.append((k, m))
                     exps[k] = (e, m)
                 rejs += rj
+            for alias in (False, True):
+                for k, m, e in dst_modules(c, named, alias):
+                    mods.append((k, m))
+                    exps[k] = (e, m)
     chk.notes["undocumented_mixed_styles_where_impl_differs"] = undocumented_dev
     if replay:
         want = json.load(open(replay))["key"]
